@@ -27,6 +27,11 @@ def gen_scenario(r, keys):
     # are DISTRIBUTED wallets whose accounts carry participant endpoints of every spelling an imported account can have
     if r.chance(0.4):
         lines.append("viagrpc")
+    # sometimes the last wallet lives in a SECOND wallet store of the same type
+    store2 = set()
+    if len(wallets) > 1 and r.chance(0.12):
+        lines.append("store2 %s" % hx(wallets[-1]))
+        store2.add(wallets[-1])
     dist_wallets = set()
     for w in wallets:
         n = r.weighted([(0, 1), (1, 2), (3, 4), (6, 3), (8, 1)])
@@ -87,8 +92,11 @@ def gen_scenario(r, keys):
         if r.chance(0.2):
             # other request types in between must not disturb what later listings show
             ops.append("%s %s %s" % (r.choice(["lockwallet", "lockwallet", "unlockwallet"]), hx(r.choice(["client1", "client2"])), hx(r.choice(wallets + ["Nope"]))))
-        if r.chance(0.25) and len(dist_wallets) < len(wallets):
-            w = r.choice([x for x in wallets if x not in dist_wallets])     # (a distributed wallet creates accounts by key generation only)
+        creatable = [x for x in wallets if x not in dist_wallets and x not in store2]
+        if r.chance(0.25) and creatable:
+            # (a distributed wallet creates accounts by key generation only; dirk's generate opens the wallet in the FIRST
+            #  configured store only — services/process/standard/generate.go — so a wallet of the second store is no target)
+            w = r.choice(creatable)
             nm = r.choice(["New1", "Acc77", "Acc1", "Validator2", "acc9"])
             ops.append("create %s %s" % (hx(r.choice(["client1", "client2"])), hx(w + "/" + nm)))
     return cfg, ops, accts
